@@ -460,3 +460,67 @@ for _n, _b in [("c18_coordinates_2x2", "2x2 card, count 1..4"), ("c18_coordinate
       bounds=_b, assumes=["verifier built directly from generate_coordinates (MD5/RC4 key schedule skipped)"], **_MC)
 H("C15", "matrix_card", "c15_matrix_generators", timeout=900, encodes=["matrix_card::get_matrix_card_seed", "MatrixCard::new", "fill_matrix_card_values"],
   inputs="-", asserts="seed is a fresh 8-byte draw; each digit is its own fresh draw reduced into 0..=9", bounds="2x1 card with 2 digits", assumes=[RNG_ASSUME, "Uniform modelled as lo + draw % span"], **_MC)
+
+MODULE_NEEDS.update({"": ["normalized_string", "server", "client", "srp_internal", "srp_internal_client"]})
+# ------------------------------------------------------------------------------------------------
+# C01
+# ------------------------------------------------------------------------------------------------
+LEMMA_L = "Lemma L (SRP-6 correctness in Z_N, mathematics, assumed): (A*v^u)^b == (B - 3*g^x)^(a + u*x) mod N for A = g^a, B = 3v + g^b, v = g^x; sanity-checked at toy width by z3/cvc5 in selftest"
+LEMMA_M = "Lemma M (assumed): with the built-in group the built-in and the custom M1 functions hash the same message (follows from c03_m1_builtin, c03_m1_custom and PRECALCULATED_XOR_HASH == SHA1(N) xor SHA1([7]), the latter checked natively in selftest)"
+P("C01", outside=["Lemma L beyond the toy bound; num-bigint and SHA-1 being correct", "names and passwords longer than 3 bytes in the quick flow harness (16 in thorough); byte-level behaviour for all lengths is decided in c13_* and c03_*",
+                  "the byte-level treatment of S (zero-byte classes, either sign of B - k*v) is decided where it happens: c03_interleave, c03_s_client, c03_s_server, c01_pad_roundtrip"],
+  assumptions=[HASH_ASSUME, BIG_ASSUME, RNG_ASSUME, STUB_ASSUME, LEMMA_L, LEMMA_M, "the two documented 'generated public key is invalid' panics are excluded"])
+H("C01", "", "c01_flow", timeout=3600, tiers=["quick"], oracle_features=["cap192", "q32"],
+  encodes=["NormalizedString::new", "SrpVerifier::{from_username_and_password, username, password_verifier, salt, from_database_values, into_proof}", "SrpProof::{server_public_key, salt, into_server}",
+           "PublicKey::from_le_bytes", "SrpClientChallenge::{new, client_public_key, client_proof, verify_server_proof}", "SrpServer::session_key", "SrpClient::session_key", "srp_internal::calculate_session_key"],
+  inputs="name, password (1..3 printable bytes each), a per-letter case mask for the client's spelling, salt / b / a (RNG draws): all any",
+  asserts="register -> export -> re-import -> challenge -> client -> server accepts -> client accepts -> session keys byte-identical and equal to K(S)",
+  bounds="credentials <= 3 bytes; leaves uninterpreted", assumes=[STUB_ASSUME, LEMMA_L, LEMMA_M, RNG_ASSUME])
+H("C01", "", "c01_flow_16", timeout=10800, tiers=["thorough"], oracle_features=["cap192", "q32"],
+  encodes=["as c01_flow"], inputs="as c01_flow with credentials of 1..16 bytes", asserts="as c01_flow", bounds="credentials <= 16 bytes", assumes=[STUB_ASSUME, LEMMA_L, LEMMA_M, RNG_ASSUME])
+H("C01", "key", "c01_pad_roundtrip", timeout=900, oracle_features=["b4"], encodes=["bigint::Integer::{from_bytes_le, to_padded_32_byte_array_le, to_bytes_le}", "From<Integer> for SKey", "key_bigint!"],
+  inputs="any 32 bytes", asserts="all padded conversions are the identity on 32-byte little-endian encodings", bounds="unwind 66", assumes=[BIG_ASSUME])
+H("C01", "normalized_string", "c13_case", timeout=1500, encodes=["NormalizedString::new"], inputs="every accepted string and every case variant",
+  asserts="case variants normalise identically; normalising is idempotent", bounds="full", assumes=["from_utf8 stub"])
+H("C01", "srp_internal", "c03_session_key", timeout=2400, oracle_features=["cap128", "q8"], encodes=["calculate_session_key"], inputs="any", asserts="K == interleave(S(A, v, u(A,B), b))", bounds="-", assumes=[STUB_ASSUME])
+H("C01", "srp_internal", "c03_interleave", timeout=2400, oracle_features=["cap64", "q8"], encodes=["calculate_interleaved", "SKey::as_equal_slice"], inputs="S any != 0",
+  asserts="both sides derive K with the same interleave for every zero-byte class", bounds="-", assumes=[HASH_ASSUME])
+H("C01", "server", "c03_registration", timeout=2400, oracle_features=["cap128", "q8"], encodes=["SrpVerifier accessors, from_database_values, into_proof"], inputs="any",
+  asserts="the account record survives export/import; accessors return what the constructor stored", bounds="-", assumes=[STUB_ASSUME])
+
+# ------------------------------------------------------------------------------------------------
+# C14: panic freedom. Rust's own panics (index/slice bounds, overflow, unwrap/expect, division by zero,
+# explicit assert!/panic!) are checked as assertions in EVERY harness; C14 collects the harnesses whose inputs
+# are exactly the peer-controlled bytes, over the full domain the peer can drive them to.
+# ------------------------------------------------------------------------------------------------
+P("C14", outside=["allocation failure", "the two documented 'self-generated public key is invalid' panics (excluded by assumption)",
+                  "pointer-level memory-safety checks are switched off (the crate is forbid(unsafe_code)); all Rust panic checks stay on"],
+  assumptions=[HASH_ASSUME, BIG_ASSUME + " - so S, A, B range over ALL values below the modulus, incl. 0, 1, N-1 and encodings with many zero bytes", STUB_ASSUME])
+_C14 = [
+ ("srp_internal", "c14_interleave_total", ["cap64", "q4"], "calculate_interleaved / SKey::as_equal_slice for ALL 32-byte secrets incl. 0 (client S is peer-controlled through B)"),
+ ("srp_internal", "c03_s_server", ["b8"], "calculate_S for every valid A and every result below N"),
+ ("srp_internal", "c03_session_key", ["cap128", "q8"], "calculate_session_key"),
+ ("srp_internal", "c03_m1_builtin", ["cap192", "q4"], "calculate_client_proof"),
+ ("srp_internal", "c03_m2", ["cap128", "q4"], "calculate_server_proof"),
+ ("srp_internal", "c03_u", ["cap64", "q4"], "calculate_u"),
+ ("srp_internal_client", "c03_s_client", ["b8"], "calculate_client_S for every valid B, any x, a, u, any announced group, every result below N incl. negative base"),
+ ("srp_internal_client", "c03_m1_custom", ["cap192", "q8"], "calculate_client_proof_with_custom_value"),
+ ("srp_internal_client", "c03_a_client", ["b4"], "calculate_client_public_key"),
+ ("server", "c02_server_decision", ["cap192", "q8"], "SrpProof::into_server for every valid A and every M1"),
+ ("server", "c05_attempt", ["cap128", "q4"], "SrpServer::verify_reconnection_attempt for every client data and proof"),
+ ("client", "c02_client_decision", ["cap128", "q4"], "SrpClientChallenge::verify_server_proof for every M2"),
+ ("client", "c03_client_challenge", ["cap192", "q16"], "SrpClientChallenge::new for every valid B, salt, group"),
+ ("client", "c05_client_values", ["cap128", "q4"], "SrpClient::calculate_reconnect_values for every server challenge"),
+ ("key", "c04_exact", [], "PublicKey::from_le_bytes for all 2^256 arrays"),
+ ("key", "c01_pad_roundtrip", ["b4"], "fixed-size copies for every value below 2^256"),
+ ("vanilla_header", "c06_vanilla_server_decision", ["cap128", "q8"], "vanilla into_server_header_crypto for every proof and seed"),
+ ("tbc_header", "c06_tbc_server_decision", ["cap128", "q8"], "tbc into_server_header_crypto"),
+ ("wrath_header", "c06_wrath_server_decision", ["cap128", "q8"], "wrath into_server_header_crypto"),
+ ("vanilla_header", "c11_typed_helpers", [], "vanilla header decrypt entry points from arbitrary state on arbitrary bytes"),
+ ("tbc_header", "c11_tbc_typed_helpers", [], "tbc header decrypt entry points"),
+ ("wrath_header", "c11_wrath_typed_helpers", [], "wrath header decrypt entry points incl. both layouts"),
+ ("wrath_header", "c14_wrath_any_order", [], "wrath client: attempt / one-more-byte / decrypt in any order from an arbitrary state"),
+]
+for _m, _n, _of, _what in _C14:
+    H("C14", _m, _n, timeout=2400, oracle_features=_of, encodes=[_what], inputs="all peer-controlled bytes symbolic", asserts="no reachable panic, overflow or out-of-bounds access (plus the functional assertions of the harness)",
+      bounds="see the harness under its own property", assumes=[BIG_ASSUME])
